@@ -16,7 +16,7 @@
 (* still examined.  The final step prints <<"DONE", #facts, #rejected>>;   *)
 (* the orchestrator treats a missing or short DONE as a harness error.     *)
 (***************************************************************************)
-EXTENDS IntLane, FP, FEnv, Mask, Mem, TLC, Json, IOUtils
+EXTENDS IntLane, FP, FEnv, Mask, Mem, Config, TLC, Json, IOUtils
 
 Tr == ndJsonDeserialize(IOEnv.TRACE)
 
@@ -33,6 +33,8 @@ FactOK(e) ==
     [] e.k = "m"   -> MaskFactOK(e)
     [] e.k = "v"   -> MemFactOK(e, MemMode)
     [] e.k = "p"   -> PrefetchFactOK(e)
+    [] e.k = "c"   -> (CASE e.o = "probe" -> ConfigFactOK(e) [] e.o = "include" -> IncludeFactOK(e)
+                         [] e.o = "api" -> ApiFactOK(e) [] OTHER -> FALSE)
     [] OTHER       -> IntFactOK(e)
 
 Init == l = 1 /\ nrej = 0
